@@ -79,7 +79,7 @@ DESIGN = {"nu": "DESIGN.md 0.3 (nu group), 5 (C06 C10 C12)", "cli": "DESIGN.md 0
 # what each check decides of its property, and through which group
 PROP = {
  "C01": "store: every read (both paths, ctx x last-id x limit), get and the order of append ids, after every step of TLC-generated and random histories incl. reopen, import, GC, expiry; bulk storage layouts only in the durability group's bulk runs.",
- "C02": "conc: poller never misses / stream grows at its end / broadcast order under all gate-level interleavings of 2-3 writers (TLC) and on explored real schedules, plus hook-free stress with production buffer sizes.",
+ "C02": "conc: poller never misses / stream grows at its end / broadcast order under all gate-level interleavings of 2-3 writers (TLC) and on explored real schedules, plus hook-free stress with production buffer sizes; http: an upload still open while another client's append completes and is read (under the virtual clock, and under the real clock with the real id generator): the later append has the larger id and reaches a poller resuming from the earlier one.",
  "C03": "conc: strictly increasing, duplicate-free, complete delivery and threshold placement for every explored interleaving of append with subscribe / scan / hand-off / live; http / cli: complete and ordered delivery over GET /?follow (tail, from the beginning, after an id - also one above or below imported ids -, heartbeat + limit), head --follow and `xs cat --follow`, with frames appended into several contexts while the stream is open. Known finding C03-ephemeral-dropped is recognised by its specific pattern only.",
  "C04": "dur: every store-mutating system call after the first ACK is a crash point: real SIGKILL images and reconstructed power-loss images recovered by the real Store::new; membership in {Apply(acked), Apply(acked + in flight)}, partition and access-path agreement, registry, content after kill.",
  "C05": "store: get / all-contexts read / own-context read agree, head exact for prefix-related, empty, multi-byte and long topics, NUL rejected on append and import with raw partition dumps; XsKeys: the key-layout argument over all short byte strings.",
